@@ -21,12 +21,29 @@ void one_case(Ctx &c) {
   w.add_string(0x2103, 0, 1 + c.t.below(5), (uint32_t)iv.next());
   w.finish();
   SdoClient cl(s, w.req[0], w.rsp[0]);
+#if CO_SSDO_N > 1
+  // build n2: a second client uses the second server between a sub-block and its acknowledge (the servers share one transfer buffer array):
+  // both uploads must deliver their object's bytes
+  SdoClient cl2(s, w.req[1], w.rsp[1]); int cross = 0; TObj *cur = nullptr;
+  cl.before_ack = [&]() {
+    if (!c.t.chance(80)) return;
+    static const uint16_t OW2[16] = {2, 2, 2, 2, 2, 2, 2, 2, 2, 2, 2, 2, 30, 20, 20, 8};
+    TObj &o2 = w.objs[c.t.weighted(OW2)]; std::vector<uint8_t> want2 = w.content(o2);
+    if (&o2 == cur) return;          // the read position of a domain or string is part of the object: two servers do not transfer the same object at the same time
+    bool blk2 = c.t.coin(); SdoRes r2 = blk2 ? cl2.upload_blk(o2.idx, o2.sub, (uint8_t)(1 + c.t.below(127)), 2, true, &want2) : cl2.upload(o2.idx, o2.sub);
+    CHECK(c, !r2.aborted && r2.data == want2, "ul-data", "upload of %04X:%02X (size %zu) on the second server, run between a sub-block of the first server and its acknowledge, %s", o2.idx, o2.sub, want2.size(), r2.aborted ? "was aborted" : "delivered wrong bytes");
+    cross++;
+  };
+#endif
   int nuploads = 1 + (int)c.t.below(3);
   bool nt = false;
   for (int u = 0; u < nuploads; u++) {
     static const uint16_t OW[16] = {2, 2, 2, 2, 2, 2, 2, 2, 2, 2, 2, 2, 40, 10, 14, 8};
     TObj &o = w.objs[c.t.weighted(OW)];
     std::vector<uint8_t> want = w.content(o);
+#if CO_SSDO_N > 1
+    cur = &o;
+#endif
     std::vector<uint8_t> before = s.snapshot();
     SdoRes r;
     bool blk = c.t.below(3) != 0;
@@ -52,16 +69,19 @@ void one_case(Ctx &c) {
     if (u > 0) c.cls("consecutive-upload");
     c.ops += r.requests;
   }
+#if CO_SSDO_N > 1
+  if (cross) c.cls("second-server-used-between-block-and-acknowledge");
+#endif
   c.nontrivial = nt;
 }
 
 Registrar reg(Prop{
     "C03",
     "Cases: node id 1..127; dictionary with the 12 integer kinds, domains of 1..2000 (4000 thorough) and 1..40 bytes, strings of 1..300 and 1..5 characters (sizes boundary-biased around 4,7,8,14,889,890,896,1778), arbitrary contents; "
-    "1..3 consecutive uploads by a reference conforming client: expedited/segmented (server's choice) or block with initial block size 1..127 and, per sub-block, an acknowledged prefix k in 0..n (weights favour 0, 1, n-1, n/2, uniform) and a new block size 1..127, up to 6 (12) partial acknowledges per transfer. "
+    "1..3 consecutive uploads by a reference conforming client (build n2: a second client uploads through the second server between a sub-block and its acknowledge): expedited/segmented (server's choice) or block with initial block size 1..127 and, per sub-block, an acknowledged prefix k in 0..n (weights favour 0, 1, n-1, n/2, uniform) and a new block size 1..127, up to 6 (12) partial acknowledges per transfer. "
     "Oracle: reassembled bytes and length == object content, announced size == object size, toggles, sequence numbers 1..n, segment count min(blksize, remaining), last flag exactly on the final segment, unused-byte counts, no answer to A1h, storage snapshot unchanged. "
     "Non-trivial: >= 2 segments, or a partial acknowledge, or a block-size change. Distinct = distinct decoded choice sequence.",
     {Mode{"random", one_case, false, 1500000, 30000000, 0, 0, 200, 400}},
-    {"pst (protocol switch threshold) and CRC are not requested by the client", "bytes the standard calls unused are not compared"}});
+    {"pst (protocol switch threshold) and CRC are not requested by the client", "build n2: the two servers never transfer the same domain or string object at the same time (its read position is part of the object)", "bytes the standard calls unused are not compared"}});
 
 }  // namespace
